@@ -27,6 +27,7 @@ Vocabulary (Proofs/Hnp.lean, namespace `Paranoid.Hnp`): `ent v i` = entry `i` of
 import ParanoidModel.Proofs.Hnp
 import ParanoidModel.Proofs.Cr50
 import ParanoidModel.Generated.Consts
+import ParanoidModel.Props.C02S
 namespace Paranoid.C08
 open Paranoid Paranoid.Hnp
 
@@ -383,5 +384,53 @@ example : cr50Guesses 1000003 1979693995 55555 2000003 164261424 77777 429496729
     [[0, 0, 0, 0], [-3, -7, 256, 0], [1, 2, 3, 4]] = .ok [123456789] := by decide +kernel
 example : (1979693995 : Int) * dotZip (cr50Basis (bitLength 4294967291)) [3] ≡
     55555 + 1000003 * 123456789 [ZMOD (4294967291 : Nat)] := by decide +kernel
+
+/-! ### The ECDSA check layer on top of the solvers (proved in Props/C02S.lean)
+
+Together with `hnp_pre_*` / `hnp_post*` / `cr50_pre` / `cr50_post` above this is the full chain
+"biased nonces ⇒ planted vector in the lattice ⇒ (ORACLE: LLL returns it) ⇒ key among the guesses
+⇒ every signature of that issuer flagged with the key, other issuers untouched". -/
+
+section checks
+open Paranoid.EcdsaChecks
+
+/-- "marks every signature of that issuer weak and records the correct private key": if any
+solver call of the curve group returns a private key of an issuer key, EVERY signature with
+that curve and issuer key is flagged, all with the same recorded key. -/
+theorem all_of_issuer_flagged (k : Kind) (O : Nat → GroupOracle) (factory : EcdsaChecks.Factory)
+    (arts : List Sig) (res : CheckResult) (hF : FactoryOK factory) (hR : FactoryReduced factory)
+    (hnd : (factory.map Prod.fst).Nodup) (hG : GuessConsistent k O arts factory)
+    (h : check k O factory arts = .ok res)
+    (cid : Nat) (obj : CurveObj) (hobj : (cid, some obj) ∈ factory) (key : Key)
+    (hkr : KeyReduced obj.curve key)
+    (j : Nat) (cs : List Call) (kk : Nat) (g : Int)
+    (hj : j < (mapIssuerSigIndexes ((groupFrom cid 0 arts).map Prod.snd)).length)
+    (hc : issuerCalls k cid obj.curve.n ((O cid).uniq j) = .ok cs) (hk : kk < cs.length)
+    (hg : g ∈ (O cid).answer j kk) (hkey : KeyOf obj.curve key g) :
+    ∃ d, LastKeyOf obj.curve key (O cid).guessList d ∧
+      ∀ bi s, arts[bi]? = some s → s.curve = cid → s.key = key →
+        verdictOf res.writes bi = some (posVerdict d) :=
+  C02S.all_of_issuer_flagged k O factory arts res hF hR hnd hG h cid obj hobj key hkr j cs kk g hj hc hk hg hkey
+
+/-- "signatures of other issuers in the same batch keep their own verdict": a signature's
+verdict depends on the solver answers only through those of its own curve group … -/
+theorem group_isolation (k : Kind) (O O' : Nat → GroupOracle) (factory : EcdsaChecks.Factory)
+    (arts : List Sig) (res res' : CheckResult) (h : check k O factory arts = .ok res)
+    (h' : check k O' factory arts = .ok res') (hnd : (factory.map Prod.fst).Nodup)
+    (bi : Nat) (s : Sig) (hs : arts[bi]? = some s) (hO : O s.curve = O' s.curve) :
+    verdictOf res.writes bi = verdictOf res'.writes bi :=
+  C02S.group_isolation k O O' factory arts res res' h h' hnd bi s hs hO
+
+/-- … and within the group only a private key of ITS OWN issuer key can flag it. -/
+theorem flagged_only_by_own_key (k : Kind) (O : Nat → GroupOracle) (factory : EcdsaChecks.Factory)
+    (arts : List Sig) (res : CheckResult) (hF : FactoryOK factory)
+    (hnd : (factory.map Prod.fst).Nodup) (h : check k O factory arts = .ok res) (bi : Nat)
+    (v : Paranoid.Verdict) (hv : verdictOf res.writes bi = some v) :
+    ∃ s obj, arts[bi]? = some s ∧ (s.curve, some obj) ∈ factory ∧
+      (v = negVerdict ∨
+        ∃ d, v = posVerdict d ∧ d ∈ (O s.curve).guessList ∧ KeyOf obj.curve s.key d) :=
+  C02S.weak_only_with_key k O factory arts res hF hnd h bi v hv
+
+end checks
 
 end Paranoid.C08
